@@ -214,10 +214,11 @@ func (c *Ctx) NilResultOnEdges(fn *ssa.Function, edgeDesc string, edges []Edge, 
 		return false
 	}
 	rets := ReturnsFrom(fn, edges, nil, nil)
+	reach := ReachableBlocks(fn, edges)
 	for _, r := range rets {
 		vals, _, _ := ReturnVals(r, i)
 		for _, v := range vals {
-			if !AllNilThroughPhi(v) {
+			if !allNilFrom(v, reach, edges) {
 				c.Violation(fn, site, posOf(r), fmt.Sprintf("return reachable on %s carries a possibly non-nil %s: %s", edgeDesc, what, Expr(v)), nil)
 				return false
 			}
@@ -288,4 +289,199 @@ func (c *Ctx) CallerTable(what string, sites []CallSite, allowed map[string]stri
 			c.Notes = append(c.Notes, "table entry without a site (upper bound only): "+what+" <- "+n)
 		}
 	}
+}
+
+// definitelyNonNil: v is a freshly constructed error / boxed value / error
+// sentinel global (assumed non-nil), independent of the path.
+func definitelyNonNil(v ssa.Value) bool {
+	switch x := v.(type) {
+	case *ssa.MakeInterface:
+		return true
+	case *ssa.Call:
+		n := calleeName(&x.Call)
+		switch n {
+		case "errors.New", "fmt.Errorf", "github.com/hashicorp/go-multierror.Append", "errors.Join":
+			return true
+		}
+		return false
+	case *ssa.UnOp:
+		if x.Op == token.MUL {
+			if _, ok := x.X.(*ssa.Global); ok {
+				return true // package-level error sentinel
+			}
+		}
+	case *ssa.Phi:
+		for _, e := range x.Edges {
+			if !definitelyNonNil(e) {
+				return false
+			}
+		}
+		return true
+	}
+	return false
+}
+
+// NonNilAt: every path from the entry of fn to `at` crosses an edge on which v
+// is known to be non-nil (v was tested), or v is non-nil by construction.
+func NonNilAt(fn *ssa.Function, v ssa.Value, at ssa.Instruction) bool {
+	if v == nil {
+		return false
+	}
+	if definitelyNonNil(v) {
+		return true
+	}
+	if IsNilConst(v) {
+		return false
+	}
+	edges := ValueNilEdges(v, false)
+	// resp.Error() is non-nil wherever resp.IsError() was found true on the same receiver
+	if cl, ok := v.(*ssa.Call); ok && calleeName(&cl.Call) == "logical.(*Response).Error" && len(cl.Call.Args) == 1 {
+		recv := cl.Call.Args[0]
+		if refs := recv.Referrers(); refs != nil {
+			for _, r := range *refs {
+				if ic, ok := r.(*ssa.Call); ok && calleeName(&ic.Call) == "logical.(*Response).IsError" {
+					edges = append(edges, boolEdges(ic, true)...)
+				}
+			}
+		}
+	}
+	if len(edges) == 0 {
+		return false
+	}
+	h := Reach(Query{Fn: fn, Blocked: edges, Target: func(in ssa.Instruction) bool { return in == at }})
+	return h == nil
+}
+
+// SuccessReturns lists the returns of fn whose result errIdx may be nil
+// (conservatively: everything not provably non-nil).
+func SuccessReturns(fn *ssa.Function, errIdx int) []ssa.Instruction {
+	var out []ssa.Instruction
+	for _, r := range Returns(fn) {
+		if r.Block().Comment == "recover" {
+			continue
+		}
+		if errIdx >= len(r.Results) {
+			continue
+		}
+		vals, viaLocal, _ := ReturnVals(r, errIdx)
+		may := false
+		for _, v := range vals {
+			at := ssa.Instruction(r)
+			if viaLocal {
+				// the value was stored earlier; judge non-nilness at the store
+				if !storedNonNil(fn, v) {
+					may = true
+				}
+				continue
+			}
+			if !NonNilAt(fn, v, at) {
+				may = true
+			}
+		}
+		if may {
+			out = append(out, r)
+		}
+	}
+	return out
+}
+
+func storedNonNil(fn *ssa.Function, v ssa.Value) bool {
+	if v == nil || IsNilConst(v) {
+		return false
+	}
+	if definitelyNonNil(v) {
+		return true
+	}
+	// find the store instruction(s) of v to a local and test there
+	refs := v.Referrers()
+	if refs == nil {
+		return false
+	}
+	ok := false
+	for _, r := range *refs {
+		if st, isSt := r.(*ssa.Store); isSt && st.Val == v {
+			if _, isAlloc := st.Addr.(*ssa.Alloc); isAlloc {
+				if !NonNilAt(fn, v, st) {
+					return false
+				}
+				ok = true
+			}
+		}
+	}
+	return ok
+}
+
+// NonNilResultReturns lists returns whose result idx may be non-nil.
+func NonNilResultReturns(fn *ssa.Function, idx int) []ssa.Instruction {
+	var out []ssa.Instruction
+	for _, r := range Returns(fn) {
+		if r.Block().Comment == "recover" || idx >= len(r.Results) {
+			continue
+		}
+		vals, _, _ := ReturnVals(r, idx)
+		for _, v := range vals {
+			if !AllNilThroughPhi(v) {
+				out = append(out, r)
+				break
+			}
+		}
+	}
+	return out
+}
+
+// ReachableBlocks: blocks reachable (plain CFG) from the targets of edges.
+func ReachableBlocks(fn *ssa.Function, edges []Edge) map[*ssa.BasicBlock]bool {
+	seen := map[*ssa.BasicBlock]bool{}
+	var stack []*ssa.BasicBlock
+	for _, e := range edges {
+		stack = append(stack, e.To())
+	}
+	for len(stack) > 0 {
+		b := stack[len(stack)-1]
+		stack = stack[:len(stack)-1]
+		if seen[b] {
+			continue
+		}
+		seen[b] = true
+		stack = append(stack, b.Succs...)
+	}
+	return seen
+}
+
+// allNilFrom: every leaf of v is the nil constant, looking through phis but
+// only along incoming edges that can be taken after one of the start edges.
+func allNilFrom(v ssa.Value, reach map[*ssa.BasicBlock]bool, start []Edge) bool {
+	seen := map[ssa.Value]bool{}
+	var walk func(v ssa.Value) bool
+	walk = func(v ssa.Value) bool {
+		if v == nil || seen[v] {
+			return true
+		}
+		seen[v] = true
+		p, ok := v.(*ssa.Phi)
+		if !ok {
+			return IsNilConst(v)
+		}
+		if !reach[p.Block()] {
+			// the phi was computed before the start edges: opaque value
+			return false
+		}
+		for i, e := range p.Edges {
+			pred := p.Block().Preds[i]
+			feasible := reach[pred]
+			for _, se := range start {
+				if se.From == pred && se.To() == p.Block() {
+					feasible = true
+				}
+			}
+			if !feasible {
+				continue
+			}
+			if !walk(e) {
+				return false
+			}
+		}
+		return true
+	}
+	return walk(v)
 }
